@@ -176,6 +176,7 @@ func runC16(c *Ctx) {
 	w := GetATWorld()
 	runC16WaitOptions(c, w)
 	runC16ResultSets(c, w)
+	runC16BadConnection(c, w)
 	xa := w.OpenXA()
 	rng := NewRng(c.Seed)
 	n := c.Budget(200, 20000)
